@@ -3,7 +3,122 @@
 import SMD.Proofs.StdCodecString
 import SMD.Proofs.StdCodecNumber
 namespace SMD
+
+/-- the keys of an entry list are strictly ascending (the canonical form of a Go map) -/
+def keysAscending : List (String × Value) → Bool
+  | [] => true
+  | [_] => true
+  | a :: b :: rest => decide (a.1 < b.1) && keysAscending (b :: rest)
+
+mutual
+/-- the value lies in the domain on which the concrete codec is exact: every int is exactly a float64 (the
+reader turns every JSON number into a float64, as `jsoniter.Iterator.Read` does; an int that is not one
+would be rounded, which the model answers with `unsupported`), and every map is in the canonical form of
+a Go map, its keys strictly ascending (the reader builds a Go map: it sorts the members by key and keeps
+the last of a repeated key, whereas the printer writes the entries as they stand) -/
+def Value.inGoDomain : Value → Bool
+  | .int i => isFloat64Units (i * scale)
+  | .list l => Value.inGoDomainList l
+  | .map m => keysAscending m && Value.inGoDomainFields m
+  | _ => true
+def Value.inGoDomainList : List Value → Bool
+  | [] => true
+  | v :: l => Value.inGoDomain v && Value.inGoDomainList l
+def Value.inGoDomainFields : List (String × Value) → Bool
+  | [] => true
+  | (_, v) :: m => Value.inGoDomain v && Value.inGoDomainFields m
+end
+
 namespace Ser
+
+/-- every int of magnitude at most 2^53 is exactly a float64 -/
+theorem isFloat64Units_int_of_le (i : Int) (h : i.natAbs ≤ 2 ^ 53) : isFloat64Units (i * scale) = true := by
+  have key : ∀ n : Nat, n ≤ 2 ^ 53 → isFloat64Units ((n : Int) * scale) = true := by
+    intro n hn
+    unfold scale
+    rw [← natCast_mul_two_pow]
+    by_cases hlt : n < 2 ^ 53
+    · exact isFloat64Units_mantissa n 1074 hlt (by omega)
+    · have e : n = 1 * 2 ^ 53 := by omega
+      have : n * 2 ^ 1074 = 1 * 2 ^ 1127 := by
+        rw [e, Nat.mul_assoc, ← Nat.pow_add]
+      rw [this]
+      exact isFloat64Units_mantissa 1 1127 (by decide) (by omega)
+  by_cases hneg : i < 0
+  · have e0 : i = -((i.natAbs : Nat) : Int) := by omega
+    rw [e0, Int.neg_mul, isFloat64Units_neg]
+    exact key _ h
+  · have e0 : i = ((i.natAbs : Nat) : Int) := by omega
+    rw [e0]
+    exact key _ h
+
+end Ser
+
+namespace Ser
+
+/-! ### canonical maps -/
+
+theorem pairwise_of_keysAscending : ∀ m : List (String × Value), keysAscending m = true →
+    m.Pairwise (fun a b => a.1 < b.1)
+  | [], _ => List.Pairwise.nil
+  | [_], _ => by simp
+  | a :: b :: rest, h => by
+    simp only [keysAscending, Bool.and_eq_true, decide_eq_true_eq] at h
+    have ih := pairwise_of_keysAscending (b :: rest) h.2
+    refine List.pairwise_cons.2 ⟨?_, ih⟩
+    intro x hx
+    rcases List.mem_cons.1 hx with rfl | hx
+    · exact h.1
+    · exact String.lt_trans h.1 ((List.pairwise_cons.1 ih).1 x hx)
+
+theorem goMapInsert_append (e : String × Value) : ∀ acc : List (String × Value),
+    (∀ x ∈ acc, x.1 < e.1) → goMapInsert e acc = acc ++ [e]
+  | [], _ => rfl
+  | x :: xs, h => by
+    have hx : x.1 < e.1 := h x (by simp)
+    have h1 : ¬ e.1 < x.1 := fun h' => String.lt_irrefl _ (String.lt_trans hx h')
+    have h2 : ¬ (e.1 == x.1) = true := by
+      intro h'; rw [beq_iff_eq] at h'; rw [h'] at hx; exact String.lt_irrefl _ hx
+    simp only [goMapInsert, if_neg h1, if_neg h2, List.cons_append]
+    rw [goMapInsert_append e xs (fun y hy => h y (List.mem_cons_of_mem _ hy))]
+
+theorem foldl_goMapInsert_of_pairwise : ∀ (m acc : List (String × Value)),
+    (acc ++ m).Pairwise (fun a b => a.1 < b.1) →
+      m.foldl (fun acc e => goMapInsert e acc) acc = acc ++ m
+  | [], acc, _ => by simp
+  | e :: m, acc, h => by
+    have hlt : ∀ x ∈ acc, x.1 < e.1 := by
+      intro x hx
+      exact (List.pairwise_append.1 h).2.2 x hx e (by simp)
+    simp only [List.foldl_cons]
+    rw [goMapInsert_append e acc hlt,
+      foldl_goMapInsert_of_pairwise m (acc ++ [e]) (by simpa using h)]
+    simp
+
+/-- a map whose keys are strictly ascending is its own canonical form -/
+theorem goMapFields_of_pairwise (m : List (String × Value)) (h : m.Pairwise (fun a b => a.1 < b.1)) :
+    goMapFields m = m := by
+  have := foldl_goMapInsert_of_pairwise m [] (by simpa using h)
+  simpa [goMapFields] using this
+
+theorem keys_of_equalsFields : ∀ (a b : List (String × Value)), Value.equalsFields a b = true →
+    a.map (·.1) = b.map (·.1)
+  | [], [], _ => rfl
+  | [], _ :: _, h => by simp [Value.equalsFields] at h
+  | _ :: _, [], h => by simp [Value.equalsFields] at h
+  | (k, v) :: as, (k', v') :: bs, h => by
+    simp only [Value.equalsFields, Bool.and_eq_true, beq_iff_eq] at h
+    simp [h.1.1, keys_of_equalsFields as bs h.2]
+
+/-- what is read back from a printed canonical map is canonical -/
+theorem goMapFields_of_equalsFields {m' m : List (String × Value)} (heq : Value.equalsFields m' m = true)
+    (hasc : keysAscending m = true) : goMapFields m' = m' := by
+  apply goMapFields_of_pairwise
+  have hk := keys_of_equalsFields m' m heq
+  have hp := pairwise_of_keysAscending m hasc
+  have hp' : (m.map (·.1)).Pairwise (· < ·) := List.pairwise_map.2 hp
+  rw [← hk] at hp'
+  exact List.pairwise_map.1 hp'
 
 /-- what may follow a printed value inside a printed key -/
 def Term (rest : List Char) : Prop := ∀ c r, rest = c :: r → c = ',' ∨ c = ']' ∨ c = '}'
@@ -68,7 +183,10 @@ theorem readValue_list_cons (fuel : Nat) (c : Char) (t : List Char) (hc : valSta
   · rfl
 
 theorem readValue_map_cons (fuel : Nat) (c : Char) (t : List Char) (hc : valStart c = true) :
-    readValue (fuel + 1) ('{' :: c :: t) = readObjMembers fuel (c :: t) [] := by
+    readValue (fuel + 1) ('{' :: c :: t) =
+      match readObjMembers fuel (c :: t) [] with
+      | .ok (m, r') => .ok (.map (goMapFields m), r')
+      | .error e => .error e := by
   rw [readValue]
   have h1 : skipWs ('{' :: c :: t) = '{' :: c :: t := rfl
   simp only [h1, skipWs_of_valStart t hc]
@@ -122,7 +240,7 @@ theorem readObjMembers_comma (fuel : Nat) (r1 r3 r5 : List Char) (acc : List (St
 theorem readObjMembers_close (fuel : Nat) (r1 r3 r5 : List Char) (acc : List (String × Value)) (k : String)
     (v : Value) (h1 : readStringBody (r1.length + 1) r1 [] = some (k, ':' :: r3))
     (h2 : readValue fuel r3 = .ok (v, '}' :: r5)) :
-    readObjMembers (fuel + 1) ('"' :: r1) acc = .ok (.map ((k, v) :: acc).reverse, r5) := by
+    readObjMembers (fuel + 1) ('"' :: r1) acc = .ok (((k, v) :: acc).reverse, r5) := by
   rw [readObjMembers]
   have : skipWs ('"' :: r1) = '"' :: r1 := rfl
   simp only [this, h1]
@@ -215,46 +333,42 @@ theorem jsonFields_start (k : String) (v : Value) (l : List (String × Value)) (
 /-- reading the key of a printed member -/
 theorem readStringBody_key (k : String) (more : List Char) :
     readStringBody ((escBody k.toList ++ '"' :: more).length + 1) (escBody k.toList ++ '"' :: more) [] =
-      some (k, more) := by
-  apply readStringBody_jsonString
-  have := escBody_length k.toList
-  simp only [List.length_append, List.length_cons]
-  omega
+      some (k, more) := readStringBody_keyWith escOK_html k more
 
 mutual
-theorem readValue_jsonValue : ∀ (v : Value) (s : String), jsonValue v = some s →
+theorem readValue_jsonValue : ∀ (v : Value) (s : String), jsonValue v = some s → v.inGoDomain = true →
     ∀ (fuel : Nat) (rest : List Char), s.toList.length < fuel → Term rest →
       ∃ v', readValue fuel (s.toList ++ rest) = .ok (v', rest) ∧ Value.equals v' v = true
-  | .null, s, h, fuel, rest, hf, _ => by
+  | .null, s, h, _, fuel, rest, hf, _ => by
     simp only [jsonValue, Option.some.injEq] at h; subst h
     obtain ⟨f, rfl⟩ : ∃ f, fuel = f + 1 := ⟨fuel - 1, by omega⟩
     exact ⟨.null, readValue_null f rest, rfl⟩
-  | .bool b, s, h, fuel, rest, hf, _ => by
+  | .bool b, s, h, _, fuel, rest, hf, _ => by
     simp only [jsonValue, Option.some.injEq] at h; subst h
     obtain ⟨f, rfl⟩ : ∃ f, fuel = f + 1 := ⟨fuel - 1, by omega⟩
     cases b
     · exact ⟨.bool false, readValue_false f rest, rfl⟩
     · exact ⟨.bool true, readValue_true f rest, rfl⟩
-  | .int i, s, h, fuel, rest, hf, hr => by
+  | .int i, s, h, hdom, fuel, rest, hf, hr => by
     simp only [jsonValue, Option.some.injEq] at h; subst h
     obtain ⟨f, rfl⟩ : ∃ f, fuel = f + 1 := ⟨fuel - 1, by omega⟩
     obtain ⟨c, t, e, hc⟩ := toString_int_start i
-    obtain ⟨z, hz⟩ := readNumber_int i rest hr.numEnd
+    obtain ⟨z, hz⟩ := readNumber_int i rest hr.numEnd (by simpa [Value.inGoDomain] using hdom)
     rw [e, List.cons_append] at hz ⊢
     exact ⟨_, readValue_number f c _ hc _ hz, by simp [Value.equals]⟩
-  | .float u z, s, h, fuel, rest, hf, hr => by
+  | .float u z, s, h, _, fuel, rest, hf, hr => by
     simp only [jsonValue] at h
     obtain ⟨f, rfl⟩ : ∃ f, fuel = f + 1 := ⟨fuel - 1, by omega⟩
     obtain ⟨⟨c, t, e, hc⟩, hread⟩ := jsonFloat_read u z s h
     obtain ⟨z', hz⟩ := hread rest hr.numEnd
     rw [e, List.cons_append] at hz ⊢
     exact ⟨_, readValue_number f c _ hc _ hz, by simp [Value.equals]⟩
-  | .str x, s, h, fuel, rest, hf, _ => by
+  | .str x, s, h, _, fuel, rest, hf, _ => by
     simp only [jsonValue, Option.some.injEq] at h; subst h
     obtain ⟨f, rfl⟩ : ∃ f, fuel = f + 1 := ⟨fuel - 1, by omega⟩
     rw [jsonString_toList, List.cons_append, List.append_assoc, List.singleton_append]
     exact ⟨.str x, readValue_str f _ x rest (readStringBody_key x rest), by simp [Value.equals]⟩
-  | .list l, s, h, fuel, rest, hf, _ => by
+  | .list l, s, h, hdom, fuel, rest, hf, _ => by
     simp only [jsonValue, Option.map_eq_some_iff] at h
     obtain ⟨a, ha, rfl⟩ := h
     obtain ⟨f, rfl⟩ : ∃ f, fuel = f + 1 := ⟨fuel - 1, by omega⟩
@@ -270,11 +384,12 @@ theorem readValue_jsonValue : ∀ (v : Value) (s : String), jsonValue v = some s
       obtain ⟨c, t, ec, hc⟩ := jsonList_start v l a ha
       have hlen : a.toList.length + 1 < f := by
         simp [String.toList_append] at hf; omega
-      obtain ⟨l', hl', heq⟩ := readItems_jsonList (v :: l) a (by simp) ha f rest [] hlen
+      obtain ⟨l', hl', heq⟩ := readItems_jsonList (v :: l) a (by simp) ha
+        (by simpa [Value.inGoDomain] using hdom) f rest [] hlen
       rw [ec, List.cons_append] at hl' ⊢
       rw [readValue_list_cons f c _ hc, hl']
       exact ⟨_, rfl, by simpa [Value.equals] using heq⟩
-  | .map m, s, h, fuel, rest, hf, _ => by
+  | .map m, s, h, hdom, fuel, rest, hf, _ => by
     simp only [jsonValue, Option.map_eq_some_iff] at h
     obtain ⟨a, ha, rfl⟩ := h
     obtain ⟨f, rfl⟩ : ∃ f, fuel = f + 1 := ⟨fuel - 1, by omega⟩
@@ -291,22 +406,28 @@ theorem readValue_jsonValue : ∀ (v : Value) (s : String), jsonValue v = some s
       obtain ⟨t, ec⟩ := jsonFields_start k v m a ha
       have hlen : a.toList.length + 1 < f := by
         simp [String.toList_append] at hf; omega
-      obtain ⟨m', hm', heq⟩ := readObjMembers_jsonFields ((k, v) :: m) a (by simp) ha f rest [] hlen
+      simp only [Value.inGoDomain, Bool.and_eq_true] at hdom
+      obtain ⟨m', hm', heq⟩ := readObjMembers_jsonFields ((k, v) :: m) a (by simp) ha hdom.2 f rest [] hlen
       rw [ec, List.cons_append] at hm' ⊢
       rw [readValue_map_cons f '"' _ rfl, hm']
-      exact ⟨_, rfl, by simpa [Value.equals] using heq⟩
+      have hcan : goMapFields m' = m' := goMapFields_of_equalsFields heq hdom.1
+      refine ⟨.map m', ?_, by simpa [Value.equals] using heq⟩
+      simp [hcan]
 theorem readItems_jsonList : ∀ (l : List Value) (s : String), l ≠ [] → jsonList l = some s →
+    Value.inGoDomainList l = true →
     ∀ (fuel : Nat) (rest : List Char) (acc : List Value), s.toList.length + 1 < fuel →
       ∃ l', readItems fuel (s.toList ++ ']' :: rest) acc = .ok (.list (acc.reverse ++ l'), rest) ∧
         Value.equalsList l' l = true
-  | [], _, hne, _, _, _, _, _ => absurd rfl hne
-  | [v], s, _, h, fuel, rest, acc, hf => by
+  | [], _, hne, _, _, _, _, _, _ => absurd rfl hne
+  | [v], s, _, h, hdom, fuel, rest, acc, hf => by
+    simp only [Value.inGoDomainList, Bool.and_true] at hdom
     rw [jsonList] at h
     obtain ⟨f, rfl⟩ : ∃ f, fuel = f + 1 := ⟨fuel - 1, by omega⟩
-    obtain ⟨v', hv', heq⟩ := readValue_jsonValue v s h f (']' :: rest) (by omega) (term_rbracket rest)
+    obtain ⟨v', hv', heq⟩ := readValue_jsonValue v s h hdom f (']' :: rest) (by omega) (term_rbracket rest)
     refine ⟨[v'], ?_, by simp [Value.equalsList, heq]⟩
     rw [readItems_close f _ acc v' rest hv', List.reverse_cons]
-  | v :: w :: l, s, _, h, fuel, rest, acc, hf => by
+  | v :: w :: l, s, _, h, hdom, fuel, rest, acc, hf => by
+    simp only [Value.inGoDomainList, Bool.and_eq_true] at hdom
     obtain ⟨a, b, ha, hb, rfl⟩ := jsonList_cons_cons h
     obtain ⟨f, rfl⟩ : ∃ f, fuel = f + 1 := ⟨fuel - 1, by omega⟩
     have e : (a ++ "," ++ b).toList ++ ']' :: rest = a.toList ++ ',' :: (b.toList ++ ']' :: rest) := by
@@ -315,18 +436,21 @@ theorem readItems_jsonList : ∀ (l : List Value) (s : String), l ≠ [] → jso
       simp [String.toList_append]; omega
     rw [hl] at hf
     rw [e]
-    obtain ⟨v', hv', heq⟩ := readValue_jsonValue v a ha f (',' :: (b.toList ++ ']' :: rest)) (by omega)
+    obtain ⟨v', hv', heq⟩ := readValue_jsonValue v a ha hdom.1 f (',' :: (b.toList ++ ']' :: rest)) (by omega)
       (term_comma _)
-    obtain ⟨l', hl', heq'⟩ := readItems_jsonList (w :: l) b (by simp) hb f rest (v' :: acc) (by omega)
+    obtain ⟨l', hl', heq'⟩ := readItems_jsonList (w :: l) b (by simp) hb
+      (by simp [Value.inGoDomainList, hdom.2]) f rest (v' :: acc) (by omega)
     refine ⟨v' :: l', ?_, by simp [Value.equalsList, heq, heq']⟩
     rw [readItems_comma f _ acc v' _ hv', hl']
     simp
 theorem readObjMembers_jsonFields : ∀ (m : List (String × Value)) (s : String), m ≠ [] → jsonFields m = some s →
+    Value.inGoDomainFields m = true →
     ∀ (fuel : Nat) (rest : List Char) (acc : List (String × Value)), s.toList.length + 1 < fuel →
-      ∃ m', readObjMembers fuel (s.toList ++ '}' :: rest) acc = .ok (.map (acc.reverse ++ m'), rest) ∧
+      ∃ m', readObjMembers fuel (s.toList ++ '}' :: rest) acc = .ok (acc.reverse ++ m', rest) ∧
         Value.equalsFields m' m = true
-  | [], _, hne, _, _, _, _, _ => absurd rfl hne
-  | [(k, v)], s, _, h, fuel, rest, acc, hf => by
+  | [], _, hne, _, _, _, _, _, _ => absurd rfl hne
+  | [(k, v)], s, _, h, hdom, fuel, rest, acc, hf => by
+    simp only [Value.inGoDomainFields, Bool.and_true] at hdom
     rw [jsonFields] at h
     simp only [Option.map_eq_some_iff] at h
     obtain ⟨a, ha, rfl⟩ := h
@@ -337,10 +461,12 @@ theorem readObjMembers_jsonFields : ∀ (m : List (String × Value)) (s : String
     have hl : a.toList.length < (jsonString k ++ ":" ++ a).toList.length := by
       simp [String.toList_append]; omega
     rw [e]
-    obtain ⟨v', hv', heq⟩ := readValue_jsonValue v a ha f ('}' :: rest) (by omega) (term_rbrace rest)
+    obtain ⟨v', hv', heq⟩ := readValue_jsonValue v a ha hdom f ('}' :: rest) (by omega) (term_rbrace rest)
     refine ⟨[(k, v')], ?_, by simp [Value.equalsFields, heq]⟩
     rw [readObjMembers_close f _ _ rest acc k v' (readStringBody_key k _) hv', List.reverse_cons]
-  | (k, v) :: e :: m, s, _, h, fuel, rest, acc, hf => by
+  | (k, v) :: e :: m, s, _, h, hdom, fuel, rest, acc, hf => by
+    obtain ⟨ke, ve⟩ := e
+    simp only [Value.inGoDomainFields, Bool.and_eq_true] at hdom
     obtain ⟨a, b, ha, hb, rfl⟩ := jsonFields_cons_cons h
     obtain ⟨f, rfl⟩ : ∃ f, fuel = f + 1 := ⟨fuel - 1, by omega⟩
     have e' : (jsonString k ++ ":" ++ a ++ "," ++ b).toList ++ '}' :: rest =
@@ -349,13 +475,79 @@ theorem readObjMembers_jsonFields : ∀ (m : List (String × Value)) (s : String
     have hl : a.toList.length + 1 + b.toList.length < (jsonString k ++ ":" ++ a ++ "," ++ b).toList.length := by
       simp [String.toList_append]; omega
     rw [e']
-    obtain ⟨v', hv', heq⟩ := readValue_jsonValue v a ha f (',' :: (b.toList ++ '}' :: rest)) (by omega)
+    obtain ⟨v', hv', heq⟩ := readValue_jsonValue v a ha hdom.1 f (',' :: (b.toList ++ '}' :: rest)) (by omega)
       (term_comma _)
-    obtain ⟨m', hm', heq'⟩ := readObjMembers_jsonFields (e :: m) b (by simp) hb f rest ((k, v') :: acc) (by omega)
+    obtain ⟨m', hm', heq'⟩ := readObjMembers_jsonFields ((ke, ve) :: m) b (by simp) hb
+      (by simp [Value.inGoDomainFields, hdom.2]) f rest ((k, v') :: acc) (by omega)
     refine ⟨(k, v') :: m', ?_, by simp [Value.equalsFields, heq, heq']⟩
     rw [readObjMembers_comma f _ _ _ acc k v' (readStringBody_key k _) hv', hm']
     simp
 end
+
+/-! ### the fields of a `k:` key: names without HTML escaping, read member by member -/
+
+theorem jsonKeyFields_cons_cons {k : String} {v : Value} {e : String × Value} {rest : List (String × Value)}
+    {s : String} (h : jsonKeyFields ((k, v) :: e :: rest) = some s) :
+    ∃ a b, jsonValue v = some a ∧ jsonKeyFields (e :: rest) = some b ∧
+      s = jsonStringPlain k ++ ":" ++ a ++ "," ++ b := by
+  rw [jsonKeyFields] at h
+  · split at h
+    · rename_i a b ha hb
+      exact ⟨a, b, ha, hb, by simpa using h.symm⟩
+    · cases h
+  · intro h'; cases h'
+
+theorem jsonKeyFields_start (k : String) (v : Value) (l : List (String × Value)) (s : String)
+    (h : jsonKeyFields ((k, v) :: l) = some s) : ∃ t, s.toList = '"' :: t := by
+  cases l with
+  | nil =>
+    rw [jsonKeyFields] at h
+    simp only [Option.map_eq_some_iff] at h
+    obtain ⟨a, _, rfl⟩ := h
+    exact ⟨_, by simp only [String.toList_append, jsonStringPlain_toList, List.cons_append]; rfl⟩
+  | cons e rest =>
+    obtain ⟨a, b, _, _, rfl⟩ := jsonKeyFields_cons_cons h
+    exact ⟨_, by simp only [String.toList_append, jsonStringPlain_toList, List.cons_append]; rfl⟩
+
+theorem readObjMembers_jsonKeyFields : ∀ (m : List (String × Value)) (s : String), m ≠ [] → jsonKeyFields m = some s →
+    Value.inGoDomainFields m = true →
+    ∀ (fuel : Nat) (rest : List Char) (acc : List (String × Value)), s.toList.length + 1 < fuel →
+      ∃ m', readObjMembers fuel (s.toList ++ '}' :: rest) acc = .ok (acc.reverse ++ m', rest) ∧
+        Value.equalsFields m' m = true
+  | [], _, hne, _, _, _, _, _, _ => absurd rfl hne
+  | [(k, v)], s, _, h, hdom, fuel, rest, acc, hf => by
+    simp only [Value.inGoDomainFields, Bool.and_true] at hdom
+    rw [jsonKeyFields] at h
+    simp only [Option.map_eq_some_iff] at h
+    obtain ⟨a, ha, rfl⟩ := h
+    obtain ⟨f, rfl⟩ : ∃ f, fuel = f + 1 := ⟨fuel - 1, by omega⟩
+    have e : (jsonStringPlain k ++ ":" ++ a).toList ++ '}' :: rest =
+        '"' :: (escBodyPlain k.toList ++ '"' :: ':' :: (a.toList ++ '}' :: rest)) := by
+      simp [String.toList_append, jsonStringPlain_toList]
+    have hl : a.toList.length < (jsonStringPlain k ++ ":" ++ a).toList.length := by
+      simp [String.toList_append]; omega
+    rw [e]
+    obtain ⟨v', hv', heq⟩ := readValue_jsonValue v a ha hdom f ('}' :: rest) (by omega) (term_rbrace rest)
+    refine ⟨[(k, v')], ?_, by simp [Value.equalsFields, heq]⟩
+    rw [readObjMembers_close f _ _ rest acc k v' (readStringBody_keyWith escOK_plain k _) hv', List.reverse_cons]
+  | (k, v) :: e :: m, s, _, h, hdom, fuel, rest, acc, hf => by
+    obtain ⟨ke, ve⟩ := e
+    simp only [Value.inGoDomainFields, Bool.and_eq_true] at hdom
+    obtain ⟨a, b, ha, hb, rfl⟩ := jsonKeyFields_cons_cons h
+    obtain ⟨f, rfl⟩ : ∃ f, fuel = f + 1 := ⟨fuel - 1, by omega⟩
+    have e' : (jsonStringPlain k ++ ":" ++ a ++ "," ++ b).toList ++ '}' :: rest =
+        '"' :: (escBodyPlain k.toList ++ '"' :: ':' :: (a.toList ++ ',' :: (b.toList ++ '}' :: rest))) := by
+      simp [String.toList_append, jsonStringPlain_toList]
+    have hl : a.toList.length + 1 + b.toList.length < (jsonStringPlain k ++ ":" ++ a ++ "," ++ b).toList.length := by
+      simp [String.toList_append]; omega
+    rw [e']
+    obtain ⟨v', hv', heq⟩ := readValue_jsonValue v a ha hdom.1 f (',' :: (b.toList ++ '}' :: rest)) (by omega)
+      (term_comma _)
+    obtain ⟨m', hm', heq'⟩ := readObjMembers_jsonKeyFields ((ke, ve) :: m) b (by simp) hb
+      (by simp [Value.inGoDomainFields, hdom.2]) f rest ((k, v') :: acc) (by omega)
+    refine ⟨(k, v') :: m', ?_, by simp [Value.equalsFields, heq, heq']⟩
+    rw [readObjMembers_comma f _ _ _ acc k v' (readStringBody_keyWith escOK_plain k _) hv', hm']
+    simp
 
 end Ser
 end SMD
